@@ -954,7 +954,7 @@ func rollbackThroughRecord(w *World, r *Report, rule string, g *graphRoles, fi *
 			keyE := c.Args[1]
 			con := fmt.Sprintf("%s#rollback-delete:%s", fi.Name(), exprStr(keyE))
 			good, how := false, ""
-			if kf := ofRec(keyE); kf != nil {
+			if kf := ofRec(resolveLocal(hinfo, helper.Decl.Body, keyE, 2)); kf != nil { // u.key, or nodeKey := u.key
 				if k, ok := keyFields[kf]; ok && hsol.Before[n].Has("new:"+k) {
 					good, how = true, "under the record's flag that says this call created the node"
 				}
